@@ -1,5 +1,5 @@
 import Qv.Model.HeapHist
-import Qv.Proofs.HeapCapture
+import Qv.Proofs.HeapArith
 /-!
 # Qv.Proofs.HeapHist — every history keeps the heap closed and the environment valid
 
@@ -32,6 +32,19 @@ theorem pushRes_ok {s s' : HState} {w : List Nat} {res : Option (Heap × Nat)} (
       simp only at *
       omega
     · exact f.2.2
+
+theorem FreshResult.zero {n : Nat} {h h' : Heap} {r : Nat} (f : FreshResult n h h' r) : FreshResult 0 h h' r :=
+  ⟨f.1.mono (Nat.zero_le _), f.2⟩
+
+theorem inPlace_ok {s s' : HState} {w w' T : List Nat} {res : Option Heap} (hs : s.OK)
+    (hg : ∀ h', res = some h' → Good 0 T s.heap h') (he : inPlace s w res = some (s', w')) : s'.OK := by
+  cases res with
+  | none => simp [inPlace] at he
+  | some h' =>
+    simp only [inPlace, Option.some.injEq, Prod.mk.injEq] at he
+    obtain ⟨rfl, _⟩ := he
+    have g := hg h' rfl
+    exact ⟨g.closed hs.1, fun x hx => Nat.lt_of_lt_of_le (hs.2 x hx) g.len⟩
 
 theorem follow_lt {h : Heap} (hc : Closed h) : ∀ (p : List Nat) (r q : Nat), r < h.length → follow h r p = some q →
     q < h.length
@@ -219,6 +232,91 @@ theorem stepH_ok (F : Ctor) {s s' : HState} {op : Op} {w : List Nat} (hs : s.OK)
         rcases hx with hx | rfl
         · exact hs.2 x hx
         · exact follow_lt hs.1 path o _ (hs.2 o (List.mem_of_getElem? ho)) hq
+  | set =>
+    simp only [stepH] at he
+    refine pushRes_ok hs ?_ he
+    intro h' r hr
+    simp only [alloc, Option.some.injEq, Prod.mk.injEq] at hr
+    obtain ⟨rfl, rfl⟩ := hr
+    exact ⟨FreshExt.alloc (by simp [Cell.refs]), Nat.le_refl _, by simp⟩
+  | iupd recv other u =>
+    simp only [stepH] at he
+    split at he
+    · exact inPlace_ok hs (fun h' hr => iupdH_good hr) he
+    · cases he
+  | imulDict recv other u =>
+    simp only [stepH] at he
+    split at he
+    · exact inPlace_ok hs (fun h' hr => imulDictH_good (Nat.zero_le _) hr) he
+    · cases he
+  | ipow recv us =>
+    simp only [stepH] at he
+    split at he
+    · cases he
+    · exact inPlace_ok hs (fun h' hr => ipowH_good F (Nat.zero_le _) hr) he
+  | clear recv =>
+    simp only [stepH] at he
+    split at he
+    · cases he
+    · exact inPlace_ok hs (fun h' hr => clearH_good (Nat.zero_le _) hr) he
+  | refresh recv =>
+    simp only [stepH] at he
+    split at he
+    · cases he
+    · exact inPlace_ok hs (fun h' hr => refreshH_good F (Nat.zero_le _) hr) he
+  | binop a other u =>
+    simp only [stepH] at he
+    split at he
+    · exact pushRes_ok hs (fun h' r hr => (binopH_fresh F hs.1 hr).zero) he
+    · cases he
+  | rsub a other u1 u2 =>
+    simp only [stepH] at he
+    split at he
+    · exact pushRes_ok hs (fun h' r hr => (rsubH_fresh F hs.1 hr).zero) he
+    · cases he
+  | mulDict a b u =>
+    simp only [stepH] at he
+    split at he
+    · exact pushRes_ok hs (fun h' r hr => (mulDictH_fresh F hs.1 hr).zero) he
+    · cases he
+  | pow a us =>
+    simp only [stepH] at he
+    split at he
+    · cases he
+    · exact pushRes_ok hs (fun h' r hr => (powH_fresh F hs.1 hr).zero) he
+  | rebuild a pl =>
+    simp only [stepH] at he
+    split at he
+    · cases he
+    · exact pushRes_ok hs (fun h' r hr => rebuildH_fresh F (Nat.zero_le _) hr) he
+  | newLike a extras pl =>
+    simp only [stepH] at he
+    split at he
+    · exact pushRes_ok hs (fun h' r hr => newLikeH_fresh (Nat.zero_le _) hr) he
+    · cases he
+  | readOnly args res =>
+    simp only [stepH] at he
+    split at he
+    · cases he
+    · rename_i l _
+      cases hr : readOnlyH s.heap l (if res then 1 else 0) with
+      | none => simp [hr] at he
+      | some p =>
+        obtain ⟨h1, rs⟩ := p
+        simp only [hr, Option.some.injEq, Prod.mk.injEq] at he
+        obtain ⟨rfl, _⟩ := he
+        have f := readOnlyH_fresh (n := 0) hr
+        refine ⟨hs.1.fresh f.1, ?_⟩
+        intro x hx
+        simp only [List.mem_append] at hx
+        rcases hx with hx | hx
+        · exact Nat.lt_of_lt_of_le (hs.2 x hx) f.1.len
+        · exact (f.2 x hx).2
+  | sat first others u =>
+    simp only [stepH] at he
+    split at he
+    · exact pushRes_ok hs (fun h' r hr => (satH_fresh F hs.1 hr).zero) he
+    · cases he
 
 /-- run a history, dropping the footprints; `none` if some call is outside the modelled domain -/
 def runH (F : Ctor) : HState → List Op → Option HState
